@@ -27,4 +27,13 @@ func (l *limitListenerConn) Close() (err error)
   modifies released, l.releaseOnce
   ensures permit-released-exactly-once: released == old(released) + (old(onceDone(l.releaseOnce)) ? 0 : 1)
   ensures closed-for-good: onceDone(l.releaseOnce)
+
+// a run-time change of the cap always reaches the semaphore: afterwards the capacity recorded there is the
+// one just set (the reserve is adjusted in the background, see pkg/util/sem)
+func (l *LimitListener) SetMaxConnection(n uint32)
+  flag allocates
+  requires l != nil && l.sem != nil && l.sem.sem != nil
+  modifies l.sem.realCapacity, gOldCap, gNewCap
+  ensures the-cap-in-force-is-the-one-just-set: l.sem.realCapacity == min(n, 20000000)
+  ensures connections-keep-their-units: wHeld == old(wHeld)
 @*/
